@@ -10,9 +10,12 @@ IMPORTS = "From Coq Require Import List ZArith.\nFrom SV Require Import Model.Fr
 
 def gen_case(rng):
     F = rng.choice([8, 12, 16, 33, 64]); T = rng.choice([3, 4, 6, 8])
+    if rng.random() < 0.3:
+        T = rng.choice([15, 24, 29, 30, 49, 59, 60])          # longer files: "exactly the file's integration count" for many (tsamp, count) pairs
+        F = rng.choice([8, 12, 16])
     realistic = rng.random() < 0.6
     c = dict(F=F, T=T, df=rng.choice([2.7939677238464355, 2.835503418452676, 1.3969838619232178]) if realistic else float(rng.choice([1, 2, 1000])),
-             dt=rng.choice([18.253611008, 1.4316557653333333]) if realistic else float(rng.choice([1, 2])),
+             dt=rng.choice([18.253611008, 1.4316557653333333, 1.073741824, 0.1, 0.33554432]) if realistic else float(rng.choice([1, 2])),
              fch1=rng.choice([6000e6, 8421.38671875e6, 1420.405752e6]) if realistic else float(rng.choice([1e9, 2e9])),
              ascending=rng.random() < 0.5, t_start=rng.choice([1.6e9, 1.7e9 + 12345.5]), seed=rng.randint(0, 999))
     ops = []
@@ -68,7 +71,7 @@ def model_ops(c, hist):
 def run(ctx):
     rng = ctx.rng
     quick = ctx.tier == "quick"
-    ctx.rule = ("frames 3-8 x 8-64 (and, through .fil only, 1-2 integrations and / or 1-2 channels), realistic (2.79 Hz / 18.25 s / 6 GHz) and integral headers, both orientations; histories of 0-5 operations from "
+    ctx.rule = ("frames 3-8 (30 %: 15-60) x 8-64 (and, through .fil only, 1-2 integrations and / or 1-2 channels), realistic (2.79 Hz / 18.25 s / 6 GHz) and integral headers, both orientations; histories of 0-5 operations from "
                 "get_waterfall, copy (continuing with the copy or the original), slice, dedrift, re-timing (t_start assigned, as a cadence does), modification of the intensities (in place, re-bound array, injected signal, zero_data), intermediate save, save-and-reload; then save as "
                 ".fil and .h5 and read back by setigen, blimpy and the waterfall_utils helpers; non-trivial = non-empty history; distinct = distinct case")
     ctx.assumptions = ["blimpy 2.1.4 / h5py are the modelled environment; blimpy needs >= 3 integrations and channels for .h5",
